@@ -31,8 +31,8 @@ Json gen_fault(Rng &g)
     Json f = Json::object();
     static const char *kinds[] = {"bitflip", "byte",   "trunc", "zero_sector",
                                   "dup_sector", "splice", "field", "field",
-                                  "field", "field", "numeral", "numeral"};
-    std::string k = kinds[g.below(12)];
+                                  "field", "field", "numeral", "numeral", "backref", "retype"};
+    std::string k = kinds[g.below(14)];
     f["kind"] = k;
     f["at"] = (long long)g.below(100000);
     if (k == "bitflip")
@@ -46,6 +46,12 @@ Json gen_fault(Rng &g)
     }
     if (k == "splice")
         f["other"] = (long long)g.below(64);
+    if (k == "retype")
+        f["v"] = (long long)g.below(256);
+    if (k == "backref") {
+        f["with"] = (long long)g.below(100000);
+        f["v"] = (long long)g.below(256);
+    }
     if (k == "numeral") { // an integer string replaced by an adversarial numeral
         f["how"] = g.chance(1, 4) ? "digit" : "replace";
         f["v"] = (long long)g.below(256);
@@ -253,6 +259,58 @@ void apply_fault(std::string &b, Dump &d, const Json &f,
         const Dump &o = others[(size_t)f.geti("other") % others.size()];
         if (o.bytes.size() > 4)
             b = b.substr(0, at) + o.bytes.substr(std::min(o.bytes.size() - 1, at));
+    } else if (k == "retype") {
+        // type confusion between number kinds: an Integer node (type code,
+        // length, digits) rewritten as a RealDouble node with chosen bits
+        std::vector<size_t> cand;
+        for (size_t i = 2; i + 2 < d.fields.size(); i++) {
+            if (d.fields[i].second != 1 || d.fields[i - 1].second != 1 || d.fields[i - 2].second != 8
+                || d.fields[i + 1].second != 8 || d.fields[i + 2].first + d.fields[i + 2].second > b.size()
+                || d.fields[i].first >= b.size())
+                continue;
+            if ((unsigned char)b[d.fields[i].first] != (unsigned char)SYMENGINE_INTEGER)
+                continue;
+            if (rd64(b, d.fields[i + 1].first) != d.fields[i + 2].second)
+                continue;
+            cand.push_back(i);
+        }
+        if (cand.empty())
+            return;
+        size_t fi = cand[(size_t)f.geti("at") % cand.size()];
+        static const uint64_t bits[] = {0x0000000000000000ULL, 0x8000000000000000ULL, 0x3ff0000000000000ULL,
+                                        0xbff0000000000000ULL, 0x7ff0000000000000ULL, 0xfff0000000000000ULL,
+                                        0x7ff8000000000000ULL, 0x4000000000000000ULL};
+        uint64_t v = bits[(size_t)f.geti("v") % 8];
+        b[d.fields[fi].first] = (char)(unsigned char)SYMENGINE_REAL_DOUBLE;
+        size_t off = d.fields[fi + 1].first;
+        size_t oldlen = 8 + d.fields[fi + 2].second;
+        std::string body(8, '\0');
+        memcpy(&body[0], &v, 8);
+        b.replace(off, oldlen, body);
+        long delta = 8 - (long)oldlen;
+        // the two fields (length, digits) become one 8-byte field
+        d.fields[fi + 1].second = 8;
+        d.fields.erase(d.fields.begin() + (long)fi + 2);
+        for (size_t i = fi + 2; i < d.fields.size(); i++)
+            d.fields[i].first = (size_t)((long)d.fields[i].first + delta);
+        d.bytes = b;
+    } else if (k == "backref") {
+        // a node header (sharing key, first-seen flag = 1) turned into a
+        // reference to a node written earlier: key := an earlier key, flag := 0
+        std::vector<size_t> keys;
+        for (size_t i = 0; i + 1 < d.fields.size(); i++)
+            if (d.fields[i].second == 8 && d.fields[i + 1].second == 1
+                && d.fields[i + 1].first + 1 <= b.size() && d.fields[i].first + 8 <= d.bytes.size()
+                && classify_field(d, i) == "sharing_key")
+                keys.push_back(i);
+        if (keys.size() < 2)
+            return;
+        size_t which = 1 + (size_t)f.geti("at") % (keys.size() - 1);
+        size_t from = (size_t)f.geti("with") % which; // an earlier node
+        uint64_t v = rd64(b, d.fields[keys[from]].first);
+        wr64(b, d.fields[keys[which]].first, v);
+        if (f.geti("v") % 4 != 0) // mostly: "already seen"; sometimes the flag stays 1
+            b[d.fields[keys[which] + 1].first] = 0;
     } else if (k == "numeral") {
         // integer strings: an 8-byte length followed by that many digits
         std::vector<size_t> cand;
